@@ -136,6 +136,8 @@ pub mod implementations {
             other => other,
         };
 
+        left.check_integer_overflow(symbols, &right)?;
+
         let result = match (symbols.as_str(), &left, &right) {
             ("+", ..) => left + right,
             ("-", ..) => left - right,
@@ -196,6 +198,8 @@ pub mod implementations {
                     other => other,
                 };
 
+                current.check_integer_overflow(op, no_mut)?;
+
                 match op.as_str() {
                     "+=" => (current + no_mut)?,
                     "-=" => (current - no_mut)?,
@@ -233,6 +237,8 @@ pub mod implementations {
                         Primitive::Optional(Some(inner)) => inner,
                         other => other,
                     };
+
+                    current.check_integer_overflow(op, &value)?;
 
                     Ok(match op.as_str() {
                         "+=" => (current + &value)?,
